@@ -1597,6 +1597,254 @@ def _name_mutations(tree, name):
     return out
 
 
+# ---- where does a module-level container GO inside function bodies (aliases, call arguments, returns ...)
+READ_METHODS = {"get", "items", "keys", "values", "copy", "index", "count", "__contains__", "__getitem__", "__len__", "__iter__",
+                "issubset", "issuperset", "isdisjoint", "union", "intersection", "difference", "symmetric_difference"}
+READ_CONSUMERS = {"len", "sorted", "list", "tuple", "set", "frozenset", "dict", "iter", "enumerate", "zip", "any", "all", "min", "max", "sum",
+                  "bool", "isinstance", "reversed", "map", "filter", "repr", "str", "type", "id", "print"}
+_FN_TYPES = (ast.FunctionDef, ast.AsyncFunctionDef)
+_ESC_DEPTH = 4
+
+
+def _parents(tree):
+    par = {}
+    for p in ast.walk(tree):
+        for c in ast.iter_child_nodes(p):
+            par[c] = p
+    return par
+
+
+def _own_walk(fn):
+    """nodes of the body of fn, nested function bodies included (closures see the same binding)"""
+    for st in fn.body if isinstance(fn.body, list) else [fn.body]:
+        yield from ast.walk(st)
+
+
+def _binds_locally(fn, name):
+    """does the function bind `name` itself (parameter / assignment without `global`): then the name is not the module-level one"""
+    if isinstance(fn, ast.Lambda):
+        return name in [a.arg for a in fn.args.posonlyargs + fn.args.args + fn.args.kwonlyargs]
+    if any(isinstance(n, ast.Global) and name in n.names for n in ast.walk(fn)):
+        return False
+    a = fn.args
+    if name in [x.arg for x in a.posonlyargs + a.args + a.kwonlyargs + ([a.vararg] if a.vararg else []) + ([a.kwarg] if a.kwarg else [])]:
+        return True
+    stack = list(fn.body)
+    while stack:
+        n = stack.pop()
+        if isinstance(n, _FN_TYPES + (ast.Lambda, ast.ClassDef)):
+            continue
+        if isinstance(n, ast.Name) and n.id == name and isinstance(n.ctx, (ast.Store, ast.Del)):
+            return True
+        stack.extend(ast.iter_child_nodes(n))
+    return False
+
+
+class _Escapes:
+    """Follows an object bound to a name through the function bodies that can see it.  `hits` collects (file, line, what) for every use that
+    writes the object or hands it to code this analysis cannot follow (fail-closed); plain reads are dropped."""
+
+    def __init__(self, repo):
+        self.repo = repo
+        self.hits = []
+        self._trees = {}
+        self._seen = set()
+
+    def tree(self, rel):
+        if rel not in self._trees:
+            t = ast.parse(open(os.path.join(self.repo, rel)).read())
+            self._trees[rel] = (t, _parents(t))
+        return self._trees[rel]
+
+    def hit(self, rel, n, what):
+        self.hits.append((rel, getattr(n, "lineno", 0), what))
+
+    # -- resolve a callee expression to (rel, FunctionDef, number of leading parameters bound implicitly)
+    def resolve(self, rel, func, depth=0):
+        tree, _p = self.tree(rel)
+        if isinstance(func, ast.Name):
+            return self.lookup(rel, func.id, depth)
+        if isinstance(func, ast.Attribute) and isinstance(func.value, ast.Name):
+            imp = _imports_of(tree, rel)
+            if func.value.id in imp:
+                f = _module_file(self.repo, imp[func.value.id])
+                if f:
+                    return self.lookup(os.path.relpath(f, self.repo), func.attr, depth)
+        return None
+
+    def lookup(self, rel, name, depth=0):
+        if depth > 4:
+            return None
+        tree, _p = self.tree(rel)
+        for n in tree.body:
+            if isinstance(n, _FN_TYPES) and n.name == name:
+                return rel, n, 0, None
+            if isinstance(n, ast.ClassDef) and n.name == name:
+                init = [m for m in n.body if isinstance(m, _FN_TYPES) and m.name == "__init__"]
+                post = [m for m in n.body if isinstance(m, _FN_TYPES) and m.name == "__post_init__"]
+                if init and not post:
+                    return rel, init[0], 1, n
+                return None
+        imp = _imports_of(tree, rel)
+        if name in imp:
+            dotted = imp[name]
+            f = _module_file(self.repo, dotted)
+            if f:                                              # `from x import module`
+                return None
+            mod, _dot, attr = dotted.rpartition(".")
+            f = _module_file(self.repo, mod)
+            if f:
+                return self.lookup(os.path.relpath(f, self.repo), attr, depth + 1)
+        return None
+
+    # -- every use of `name` inside the function `fn` of module `rel`
+    def follow_in_function(self, rel, fn, name, depth, cls=None, via=""):
+        key = (rel, getattr(fn, "lineno", 0), name)
+        if key in self._seen:
+            return
+        self._seen.add(key)
+        _t, par = self.tree(rel)
+        for n in _own_walk(fn):
+            if isinstance(n, ast.Name) and n.id == name:
+                self.use(rel, fn, n, par, depth, cls, via)
+
+    def use(self, rel, fn, n, par, depth, cls, via):
+        name = n.id
+        p = par.get(n)
+        g = par.get(p)
+        tag = f"{name}{via}"
+        if isinstance(n.ctx, (ast.Store, ast.Del)):
+            if isinstance(p, ast.AugAssign) and p.target is n:
+                self.hit(rel, n, f"{tag}: augmented assignment (in-place for containers)")
+            return                                             # rebinding a local name: the uses stay attributed to the container (over-approximation)
+        if isinstance(p, ast.AugAssign) and p.target is n:
+            self.hit(rel, n, f"{tag}: augmented assignment (in-place for containers)")
+            return
+        if isinstance(p, ast.Subscript) and p.value is n:
+            if isinstance(p.ctx, (ast.Store, ast.Del)) or (isinstance(g, ast.AugAssign) and g.target is p):
+                self.hit(rel, n, f"{tag}: item store")
+            return
+        if isinstance(p, ast.Attribute) and p.value is n:
+            if isinstance(g, ast.Call) and g.func is p:
+                if p.attr in READ_METHODS:
+                    return
+                self.hit(rel, n, f"{tag}: method .{p.attr}(...)" + (" mutates it" if p.attr in MUTATORS else " is not a known read"))
+                return
+            self.hit(rel, n, f"{tag}: attribute .{p.attr} taken")
+            return
+        if isinstance(p, ast.Compare):
+            return
+        if isinstance(p, (ast.For, ast.AsyncFor, ast.comprehension)) and p.iter is n:
+            return
+        if isinstance(p, (ast.BoolOp, ast.UnaryOp, ast.BinOp, ast.FormattedValue, ast.Assert)):
+            return
+        if isinstance(p, (ast.If, ast.While, ast.IfExp)) and p.test is n:
+            return
+        if isinstance(p, ast.Starred) and isinstance(g, ast.Call):
+            return
+        if isinstance(p, ast.keyword) and p.arg is None and isinstance(g, ast.Call):
+            return                                             # f(**d): unpacked into a fresh dict
+        if (isinstance(p, ast.Assign) and p.value is n and len(p.targets) == 1) or (isinstance(p, ast.AnnAssign) and p.value is n):
+            t = p.targets[0] if isinstance(p, ast.Assign) else p.target
+            if isinstance(t, ast.Name):                        # local alias
+                if t.id != name:
+                    self.follow_in_function(rel, fn, t.id, depth, cls, via + f" (as {t.id})")
+                return
+            if isinstance(t, ast.Attribute) and _is_self(t.value) and cls is not None and getattr(fn, "name", "") in CTOR_NAMES:
+                lw = _later_written(cls).get(t.attr)
+                if lw:
+                    self.hit(rel, n, f"{tag}: kept as self.{t.attr} of {cls.name}, which {sorted(lw)} write")
+                return
+            self.hit(rel, n, f"{tag}: stored into {ast.unparse(t)}")
+            return
+        call, kw = (p, None) if isinstance(p, ast.Call) else ((g, p.arg) if isinstance(p, ast.keyword) and isinstance(g, ast.Call) else (None, None))
+        if call is not None and (n in call.args or kw is not None):
+            ftxt = ast.unparse(call.func)
+            if ftxt in READ_CONSUMERS or ftxt.split(".")[-1] in ("isinstance",):
+                return
+            r = self.resolve(rel, call.func) if depth < _ESC_DEPTH else None
+            if r is None:
+                self.hit(rel, n, f"{tag}: passed to {ftxt}(...), which this analysis cannot follow")
+                return
+            crel, cfn, skip, ccls = r
+            a = cfn.args
+            pos = [x.arg for x in a.posonlyargs + a.args][skip:]
+            if kw is not None:
+                pname = kw if kw in pos + [x.arg for x in a.kwonlyargs] else None
+            else:
+                i = call.args.index(n)
+                pname = pos[i] if i < len(pos) and not any(isinstance(x, ast.Starred) for x in call.args[:i]) else None
+            if pname is None:
+                self.hit(rel, n, f"{tag}: passed to {ftxt}(...) in a position this analysis cannot name")
+                return
+            self.follow_in_function(crel, cfn, pname, depth + 1, ccls, via + f" -> {cfn.name if ccls is None else ccls.name}({pname})")
+            return
+        self.hit(rel, n, f"{tag}: escapes through <{type(p).__name__}> {ast.unparse(p)[:60]!r}")
+
+
+def _container_escapes(repo, rel, name):
+    """(file, line, what) for every in-function use of the module-level container `name` of module `rel` that writes it through an alias /
+    a callee, or lets it escape to code that is not followed.  Direct writes are reported by _name_mutations."""
+    e = _Escapes(repo)
+    tree, par = e.tree(rel)
+
+    def visit(n, fns):
+        for c in ast.iter_child_nodes(n):
+            if isinstance(c, _FN_TYPES + (ast.Lambda,)):
+                if _binds_locally(c, name):
+                    continue
+                visit(c, fns + [c])
+                continue
+            if fns and isinstance(c, ast.Name) and c.id == name and isinstance(c.ctx, ast.Load):
+                cls = None
+                q = fns[0]
+                if isinstance(par.get(q), ast.ClassDef):
+                    cls = par[q]
+                e.use(rel, fns[-1], c, par, 0, cls, "")
+            visit(c, fns)
+    visit(tree, [])
+    direct = ("item store", "augmented assignment", "mutates it")
+    return [(r, l, w) for r, l, w in e.hits if not (r == rel and " (as " not in w and " -> " not in w and any(d in w for d in direct))]
+
+
+def _foreign_container_writes(repo, trees, rel, name):
+    """uses of the module-level container `name` of module `rel` from the OTHER scanned modules (`from mod import NAME`, `mod.NAME`)
+    that are not plain reads"""
+    dotted = rel[:-3].replace("/", ".")
+    if dotted.endswith(".__init__"):
+        dotted = dotted[:-len(".__init__")]
+    out = []
+    for rel2, tree2 in trees.items():
+        if rel2 == rel:
+            continue
+        imp = _imports_of(tree2, rel2)
+        for local, target in imp.items():
+            if target == dotted + "." + name:                  # from mod import NAME [as local]
+                out += [(rel2, l, f"{local}: direct write") for l, _i in _name_mutations(tree2, local)]
+                out += _container_escapes(repo, rel2, local)
+        mods = {local for local, target in imp.items() if target == dotted}
+        if not mods:
+            continue
+        par = _parents(tree2)
+        for n in ast.walk(tree2):
+            if isinstance(n, ast.Attribute) and n.attr == name and isinstance(n.value, ast.Name) and n.value.id in mods:
+                p = par.get(n)
+                g = par.get(p)
+                if isinstance(n.ctx, (ast.Store, ast.Del)):
+                    out.append((rel2, n.lineno, f"{ast.unparse(n)} rebound"))
+                elif isinstance(p, ast.Subscript) and p.value is n and isinstance(p.ctx, ast.Load) and not (isinstance(g, ast.AugAssign) and g.target is p):
+                    continue
+                elif isinstance(p, ast.Attribute) and isinstance(g, ast.Call) and g.func is p and p.attr in READ_METHODS:
+                    continue
+                elif isinstance(p, ast.Compare) or (isinstance(p, (ast.For, ast.comprehension)) and p.iter is n):
+                    continue
+                elif isinstance(p, ast.Call) and n in p.args and ast.unparse(p.func) in READ_CONSUMERS:
+                    continue
+                else:
+                    out.append((rel2, n.lineno, f"{ast.unparse(n)} used as <{type(p).__name__}> {ast.unparse(p)[:50]!r}"))
+    return out
+
+
 def _class_mutators(cls):
     """names of the methods (other than constructors) that store into / mutate fields of self"""
     res = set()
@@ -1701,9 +1949,15 @@ def process_state(repo, rule_names=(), memos=(), files=None, strict=None):
                 return None
             if isinstance(v, (ast.List, ast.Dict, ast.Set, ast.ListComp, ast.DictComp, ast.SetComp)) or txt in CONTAINER_CALLS:
                 muts = [m for m in _name_mutations(tree, name)]
-                if not any(infn for _l, infn in muts):
-                    return ("WriteOnceAtImport", "container never mutated inside a function of its module")
-                return ("Uncontrolled", f"container mutated at run time (lines {[l for l, i in muts if i]})")
+                if any(infn for _l, infn in muts):
+                    return ("Uncontrolled", f"container mutated at run time (lines {[l for l, i in muts if i]})")
+                # the object reached through a local alias (`c = NAME; c[k] = v`), a callee's parameter, a return value ...: every use inside a
+                # function body that is not a plain read is followed (bounded depth) and is a write unless shown otherwise
+                esc = _container_escapes(repo, rel, name)
+                if esc:
+                    return ("Uncontrolled", "container written through an alias / handed to code that may write it: "
+                            + "; ".join(f"{r_}:{l_} {w_}" for r_, l_, w_ in esc[:3]))
+                return ("WriteOnceAtImport", "container never mutated inside a function of its module (direct uses, local aliases and callees followed)")
             if txt in COUNTER_CALLS:
                 return ("Uncontrolled", "process-wide counter")
             if isinstance(v, ast.Call):
@@ -2170,6 +2424,12 @@ def state_inventory(repo, rules, memos, objs, experiments=None):
             c = "(if forallb rule_ok RuleCfgs.ruleset_passes then SReset else SNone)"
         elif d == "WriteOnceAtImport":
             c = "SImport"
+            if s["why"].startswith("container never mutated") and s["name"] != "__all__":
+                foreign = _foreign_container_writes(repo, all_trees, "onnxscript/" + s["module"] + ".py", s["name"])
+                if foreign:
+                    c = "SNone"
+                    s = dict(s, why="container of this module written / handed on by another module: "
+                             + "; ".join(f"{r_}:{l_} {w_}" for r_, l_, w_ in foreign[:3]))
         elif d in ("ResetPerOperation", "ScopedRestore"):
             c = "SReset"
         else:
